@@ -12,7 +12,7 @@ RANKING_RULES = ["STV", "IRV", "SequentialRCV", "Plurality", "SNTV", "Borda", "T
 SCORE_RULES = ["Rating", "Limited", "Cumulative", "Approval", "BlocPlurality"]
 ALL_RULES = RANKING_RULES + SCORE_RULES
 STV_FAMILY = ("STV", "IRV", "SequentialRCV")
-UNTIED_ONLY = ("STV", "IRV", "SequentialRCV", "Alaska", "TopTwo", "DominatingSets", "CondoBorda")
+UNTIED_ONLY = ("STV", "IRV", "SequentialRCV", "Alaska")  # rules that reject tied positions; the pairwise rules and TopTwo accept them
 INTENTIONALLY_RANDOM = ("RandomDictator", "BoostedRandomDictator", "PluralityVeto")
 PAIRWISE = ("DominatingSets", "CondoBorda")
 MULTI_ROUND = ("STV", "IRV", "SequentialRCV", "Alaska", "PluralityVeto", "RandomDictator", "BoostedRandomDictator")
@@ -34,6 +34,7 @@ def E():
 
 _wrapped = False
 _round_limit = [None]
+STEP_LOG = [None]   # when set to a list: (election, profile_in, prev_state, profile_out) of every stored step
 LAST_STEP = [None]  # (election object, prev_state) of the most recent stored step: lets a monitor see the tallies
 #                     at the round in which a constructor raised
 
@@ -56,6 +57,14 @@ def install_round_budget():
                 def w(self, profile, prev_state, store_states=False, _orig=orig):
                     if store_states:
                         LAST_STEP[0] = (self, prev_state)
+                        if STEP_LOG[0] is not None:
+                            out = _orig(self, profile, prev_state, store_states)
+                            STEP_LOG[0].append((self, profile, prev_state, out))
+                            n = self.__dict__.get("_vk_rounds", 0) + 1
+                            self.__dict__["_vk_rounds"] = n
+                            if n > 2 * len(self._profile.candidates) + 4:
+                                raise RoundBudget("more than %d rounds" % (2 * len(self._profile.candidates) + 4))
+                            return out
                         n = self.__dict__.get("_vk_rounds", 0) + 1
                         self.__dict__["_vk_rounds"] = n
                         lim = 2 * len(self._profile.candidates) + 4
